@@ -76,12 +76,13 @@ def parseKind : List String → Option Kind
   | ["enable", c] => some (.enable (nat! c))
   | ["disable", c] => some (.disable (nat! c))
   | ["action", f, c] => some (.action (nat! f) (nat! c))
+  | ["state", d, c] => some (.state (d == "1") (nat! c))
   | _ => none
 
 def kindWords : List String :=
   ["atom", "seq", "sor", "starPartial", "partial", "plus", "at", "notAt", "until1", "until2", "rep", "repMinMax",
    "repOpt", "ifThenElse", "strict", "starStrict", "rematch", "must", "ifMust", "raise", "tcrf", "tcrn", "enable",
-   "disable", "action"]
+   "disable", "action", "state"]
 
 def setNode (g : Array Node) (i : Nat) (nd : Node) : Array Node :=
   let g := if g.size ≤ i then g ++ Array.replicate (i + 1 - g.size) default else g
